@@ -116,6 +116,8 @@ func globalsRule(c *core.Ctx, rule string) {
 		switch {
 		case strings.HasSuffix(t, "sync.Pool") || strings.HasSuffix(t, "bytebufferpool.Pool"):
 			c.OK(rule, k, pos, "pool (internally synchronised)")
+		case len(ws) == 0 && sharedStateful(g) != "" && usedOutsideInit(c, g):
+			c.Fail(rule, k, pos, "package-level variable "+k+" holds one shared "+sharedStateful(g)+", an object with internal state that is not known to be immutable or synchronised: every call that uses it shares that state")
 		case len(ws) == 0:
 			c.OK(rule, k, pos, "read-only after init")
 		default:
@@ -313,4 +315,58 @@ func goRule(c *core.Ctx) {
 	if n == 0 {
 		c.OK("C13-GO", "none", "", "the library starts no goroutine")
 	}
+}
+
+// sharedStateful: the variable's type is a pointer or interface to a type from outside the module that is not on the
+// list of types known to be immutable or internally synchronised; returns the type's name ("" = harmless).
+func sharedStateful(g *ssa.Global) string {
+	t := g.Type().(*types.Pointer).Elem()
+	var named *types.Named
+	switch x := t.(type) {
+	case *types.Pointer:
+		named, _ = x.Elem().(*types.Named)
+	case *types.Named:
+		if _, isIface := x.Underlying().(*types.Interface); isIface {
+			named = x
+		}
+	}
+	if named == nil || named.Obj().Pkg() == nil || load.InModule(named.Obj().Pkg()) {
+		return ""
+	}
+	full := named.Obj().Pkg().Path() + "." + named.Obj().Name()
+	safe := map[string]bool{
+		"golang.org/x/text/encoding.Encoding":        true, // a factory: NewEncoder/NewDecoder create the stateful objects
+		"golang.org/x/text/encoding/charmap.Charmap": true,
+		"sync.Pool": true, "sync.Mutex": true, "sync.RWMutex": true, "sync.Once": true,
+		"github.com/valyala/bytebufferpool.Pool": true,
+		"regexp.Regexp":                          true,
+		"time.Location":                          true,
+		"log.Logger":                             true,
+		"encoding/binary.ByteOrder":              true,
+	}
+	if safe[full] {
+		return ""
+	}
+	return full
+}
+
+func usedOutsideInit(c *core.Ctx, g *ssa.Global) bool {
+	if g.Referrers() != nil {
+		return true
+	}
+	for fn := range ssaFunctions(c.Prog) {
+		if fn.Name() == "init" || strings.HasPrefix(fn.Name(), "init#") {
+			continue
+		}
+		for _, b := range fn.Blocks {
+			for _, ins := range b.Instrs {
+				for _, op := range ins.Operands(nil) {
+					if op != nil && *op == ssa.Value(g) {
+						return true
+					}
+				}
+			}
+		}
+	}
+	return false
 }
